@@ -135,3 +135,23 @@ Proof.
   exists [AUnmarshal [1%N]; AScribbleInput 0 [9%N]]. intro H. unfold views_intact in H. vm_compute in H.
   inversion H as [|? ? H1 _]; subst. discriminate H1.
 Qed.
+
+(* ---- marshaler results ---- *)
+Lemma astep2_inv s o : AInv s -> AInv (astep2 false s o).
+Proof.
+  intro H. destruct o as [o|k]; cbn [astep2]; [apply astep_inv; exact H|].
+  destruct (nth_error (views s) k) as [[r v]|]; [|exact H]. apply astep_inv. exact H.
+Qed.
+Lemma arun2_inv ops : forall s, AInv s -> AInv (fold_left (astep2 false) ops s).
+Proof. induction ops as [|o r IH]; intros s H; [exact H|]. cbn [fold_left]. apply IH, astep2_inv, H. Qed.
+
+(* for every history that also encodes values whose marshalers return windows into what the caller holds *)
+Theorem no_aliasing_marshalers ops : views_intact (arun2 false ops).
+Proof. exact (proj2 (proj2 (proj2 (arun2_inv ops _ astate0_inv)))). Qed.
+
+(* appending the sentinel to the marshaler's own slice writes behind the window *)
+Theorem writes_marshaler_result_refuted : exists ops, ~ views_intact (arun2 true ops).
+Proof.
+  exists [ABase (AMarshal [1%N]); AMarshalVia 0]. intro H. unfold views_intact in H. vm_compute in H.
+  inversion H as [|? ? H1 _]; subst. discriminate H1.
+Qed.
